@@ -67,21 +67,36 @@ func (verifGeo) Data(_ string, ip netip.Addr) (*geoip.Location, error) {
 type verifLimiter struct {
 	calls, counted int
 	drop, allow    bool
+	badArgs        int
 }
 
-func (l *verifLimiter) IsRateLimited(context.Context, *dns.Msg, netip.Addr) (bool, bool, error) {
+var verifClient10 = netip.AddrFrom4([4]byte{198, 51, 100, 7})
+
+func (l *verifLimiter) IsRateLimited(_ context.Context, req *dns.Msg, ip netip.Addr) (bool, bool, error) {
 	l.calls++
+	if ip != verifClient10 || len(req.Question) != 1 || req.Question[0].Name != "example.org." {
+		l.badArgs++
+	}
 	return l.drop, l.allow, nil
 }
-func (l *verifLimiter) CountResponses(context.Context, *dns.Msg, netip.Addr) { l.counted++ }
+func (l *verifLimiter) CountResponses(_ context.Context, resp *dns.Msg, ip netip.Addr) {
+	l.counted++
+	if ip != verifClient10 || resp == nil || !resp.Response {
+		l.badArgs++
+	}
+}
 
 type verifProfLimiter struct {
 	res            agd.RatelimitResult
 	calls, counted int
+	badArgs        int
 }
 
-func (l *verifProfLimiter) Check(context.Context, *dns.Msg, netip.Addr) agd.RatelimitResult {
+func (l *verifProfLimiter) Check(_ context.Context, req *dns.Msg, ip netip.Addr) agd.RatelimitResult {
 	l.calls++
+	if ip != verifClient10 || len(req.Question) != 1 {
+		l.badArgs++
+	}
 	return l.res
 }
 func (l *verifProfLimiter) Config() *agd.RatelimitConfig                            { return nil }
@@ -242,6 +257,7 @@ func VerifC10Middleware() {
 		}
 		verifReach("served")
 	}
+	verifAssert("limiters-are-asked-about-this-client-and-this-message", lim.badArgs == 0 && profLim.badArgs == 0)
 	if kind == 2 {
 		// an authentication failure is served as anonymous: no profile downstream
 		verifAssert("auth-failure-served-as-anonymous", profLim.calls == 0)
